@@ -95,7 +95,12 @@ class Impl:
         # a decoder must not carry anything over from a buffer it rejected: first offer the same
         # commands followed by one command with an opcode the flavour does not know (rejected after
         # the valid commands were read), to the module-level deserialize() and to the long-lived object
-        poisoned = self.poison(fname, raw)
+        try:  # the plain round trip first, so that a failure is attributed correctly
+            back0 = self.deserialize(raw, flavour=flav)
+            plain_ok = (list(back0.instructions) == instrs and tuple(back0.netqasm_version) == (v0, v1) and back0.app_id == app)
+        except Exception:
+            plain_ok = False
+        poisoned = self.poison(fname, raw) if plain_ok else None
         if poisoned is not None:
             for dec_fn in (lambda b: self.deserialize(b, flavour=flav),
                            lambda b: self.persistent_deserializer(fname).deserialize_subroutine(b)):
